@@ -5,6 +5,7 @@ import (
 	"fmt"
 	"os"
 	"path/filepath"
+	"sort"
 	"strings"
 
 	"verif/internal/core"
@@ -37,6 +38,10 @@ var sinkContexts = []sinkCtx{
 	{"refdef-title", "[a]\n\n[a]: x \"§\"", coreExts, false},
 	{"refdef-dest", "[a]\n\n[a]: §", coreExts, false},
 	{"ref-label", "[§]\n\n[§]: x", coreExts, false},
+	{"ref-full-label", "[a][§]\n\n[§]: x", coreExts, false},
+	{"ref-collapsed-label", "[§][]\n\n[§]: x", coreExts, false},
+	{"img-ref-full-label", "![a][§] b\n\n[§]: x", coreExts, false},
+	{"ref-full-undefined", "[a][§] b", coreExts, false},
 	{"img-alt", "![§](x)", coreExts, false},
 	{"img-alt-em", "![*§*](x)", coreExts, false},
 	{"img-alt-break", "![a  \n§\\\nb](x)", coreExts, false},
@@ -244,7 +249,33 @@ func runC03(r *core.Run) {
 	}
 	// (3) neighbourhood of the spec examples in safe XHTML mode
 	nbhdSub(r, "nbhd-spec/all+attr+autoid+xhtml", core.MustCfg("all+attr+autoid+xhtml"), func(s *core.Sub, cv *core.Conv, w []byte) { c03Case(s, cv, w, "nbhd") })
+	{
+		// attribute names that collide with an allowed name under the multiply-by-33 string hash family
+		var names []string
+		for a := range globalAttrs {
+			names = append(names, hashTwins(a)...)
+		}
+		for _, a := range []string{"align", "width", "href", "src", "alt", "start", "type", "checked", "disabled", "colspan", "rowspan"} {
+			names = append(names, hashTwins(a)...)
+		}
+		sort.Strings(names)
+		cfg := core.MustCfg("core+attr")
+		s := r.Sub("attr-name-hash-twins", fmt.Sprintf("%d attribute names that differ from an allowed attribute name in two adjacent bytes (+d, -33d) and therefore share its multiply-by-33 string hash, as '# h {NAME=x}' and 'h {NAME=x .c}' + Setext underline under %s: none may reach the output", len(names), cfg))
+		cv := core.NewConv(cfg)
+		for _, n := range names {
+			for _, d := range []string{"# h {" + n + "=x}", "h {" + n + "=x .c}\n==="} {
+				c03Case(s, cv, []byte(d), "attr-name-hash-twins")
+				s.Evals.Add(1)
+			}
+			s.Distinct(core.Hash([]byte(n)))
+		}
+		s.AddSample("clatR (twin of class)")
+		s.States.Store(int64(len(names)))
+		s.Transitions.Store(s.Evals.Load())
+		s.Done()
+	}
 	for _, cn := range []string{"core+attr", "all+attr+autoid+xhtml"} {
+		attrEntrySub(r, "attribute-entries/"+cn, core.MustCfg(cn), 3, func(s *core.Sub, cv *core.Conv, w []byte) { c03Case(s, cv, w, "attribute-entries") })
 		attrSub(r, "attributes/"+cn, core.MustCfg(cn), core.Pick(r, 4, 5), func(s *core.Sub, cv *core.Conv, w []byte) { c03Case(s, cv, w, "attributes") })
 	}
 	for _, cn := range []string{"core", "all+attr+autoid+xhtml"} {
